@@ -255,3 +255,119 @@ func VarIndexRange(n *CandidateNode) int {
 	}
 	return total
 }
+
+// --- result used where its error may still be set (P8) ----------------------------
+
+func parseNode(s string) (*CandidateNode, error) {
+	if s == "" {
+		return nil, io.EOF
+	}
+	return &CandidateNode{Value: s}, nil
+}
+
+// UsesResultOnLetThroughError lets io.EOF through and then dereferences the nil result.
+func UsesResultOnLetThroughError(s string) (string, error) {
+	n, err := parseNode(s)
+	if err != nil && !errors.Is(err, io.EOF) {
+		return "", err
+	}
+	return n.Value, nil
+}
+
+// UsesResultAfterFullCheck is the usual form (must not fire).
+func UsesResultAfterFullCheck(s string) (string, error) {
+	n, err := parseNode(s)
+	if err != nil {
+		return "", err
+	}
+	return n.Value, nil
+}
+
+// --- balanced counters (B1) -------------------------------------------------------
+
+type Indenter struct{ level int }
+
+// LeaksLevel returns early after raising the level.
+func (e *Indenter) LeaksLevel(w io.Writer, items []string) error {
+	e.level++
+	if len(items) == 0 {
+		_, err := io.WriteString(w, "{}")
+		return err
+	}
+	for _, it := range items {
+		if _, err := io.WriteString(w, strings.Repeat(" ", e.level)+it); err != nil {
+			return err
+		}
+	}
+	e.level--
+	return nil
+}
+
+// KeepsLevel raises and lowers under the same flag (must not fire).
+func (e *Indenter) KeepsLevel(w io.Writer, items []string, global bool) error {
+	if !global {
+		e.level++
+	}
+	for _, it := range items {
+		if _, err := io.WriteString(w, it); err != nil {
+			return err
+		}
+	}
+	if global {
+		return nil
+	}
+	e.level--
+	return nil
+}
+
+// --- data as format string / bytes as runes (F1, F2) ---------------------------------
+
+// FormatsData uses document text as the format.
+func FormatsData(w io.Writer, n *CandidateNode) {
+	line := n.Value + "\n"
+	fmt.Fprintf(w, line)
+}
+
+// BytesAsRunes walks bytes and writes them as runes.
+func BytesAsRunes(s string) string {
+	var sb strings.Builder
+	for i := 0; i < len(s); i++ {
+		sb.WriteRune(rune(s[i]))
+	}
+	return sb.String()
+}
+
+// RunesAsRunes is the usual form (must not fire).
+func RunesAsRunes(s string) string {
+	var sb strings.Builder
+	for _, r := range s {
+		sb.WriteRune(r)
+	}
+	return sb.String()
+}
+
+// --- whole child lists (K1w) ------------------------------------------------------
+
+// AdoptsChildren gives a new node another node's children as they are.
+func AdoptsChildren(src *CandidateNode) *CandidateNode {
+	res := src.Copy()
+	var kept []*CandidateNode
+	for i := 0; i < len(src.Content); i++ {
+		if src.Content[i].Value != "" {
+			kept = append(kept, src.Content[i])
+		}
+	}
+	res.Content = kept
+	return res
+}
+
+// FiltersOwnChildren keeps a subset of its own children (must not fire).
+func FiltersOwnChildren(n *CandidateNode) {
+	var kept []*CandidateNode
+	for i := 0; i < len(n.Content); i++ {
+		if n.Content[i].Value != "" {
+			kept = append(kept, n.Content[i])
+		}
+	}
+	n.Content = kept
+}
